@@ -16,6 +16,9 @@ type Replica struct {
 	Seed    uint64            `json:"seed,omitempty"`
 	Rot     int               `json:"rot,omitempty"`
 	PerSite map[string]string `json:"persite,omitempty"` // site name -> mode
+	Sched   uint64            `json:"sched,omitempty"`   // seed of the scheduling policy for goroutines the code under test starts itself (0 = canonical)
+	Preempt int               `json:"preempt,omitempty"` // percent chance of a preemption at a shared site while such goroutines are alive
+	Procs   int               `json:"procs,omitempty"`   // what runtime.GOMAXPROCS(0) / NumCPU() report (0 = 2)
 	History bool              `json:"history,omitempty"` // run a prelude in the same process first: an older version of the tree loaded and rendered, failing renders, string evaluations
 	Clock   int64             `json:"clock"`             // unix seconds of the simulated clock base
 	Rand    int64             `json:"rand"`              // seed of the simulated global math/rand stream
@@ -241,6 +244,7 @@ var canonicalReplica = Replica{Mode: "canonical", Clock: 1_700_000_000, Rand: 1}
 // pinSeams installs the canonical values of all seams (used by every check for
 // the seams it does not vary itself).
 func pinSeams() {
+	simrt.SetSchedPolicy(&simrt.SchedPolicy{Procs: 2})
 	simrt.SetOrder(canonicalReplica.Policy())
 	simrt.SetClock(&simrt.Clock{Base: timeUnix(canonicalReplica.Clock)}, canonicalReplica.Rand)
 }
